@@ -33,7 +33,7 @@ inductive Rec
   | receive (t : Nat) (disp : List Nat)
   | interrupt (disp : List Nat)
   | handled (k : Nat)
-  | backendRaise (k : Nat)
+  | backendRaise (k : Nat) (caught : Bool := true)   -- caught: by `_handler_loop`'s `except Exception` (RunOutcome.FaultClass.isException)
   | handlerExit
 deriving Repr, Inhabited
 
@@ -391,7 +391,7 @@ def step (c : Ctx) (g : G) : Rec → Verdict
     if k != g.handled then .reject s!"handled {k}: expected index {g.handled}"
     else if k ≥ g.fired.size then .reject s!"handled {k}: event not fired yet"
     else .ok { g with handled := k + 1 }
-  | .backendRaise _ => .ok { g with startedEff := { g.startedEff with pending := true } }
+  | .backendRaise _ caught => .ok { g with startedEff := { g.startedEff with pending := caught || g.startedEff.pending } }
   | .handlerExit => .ok { g with defF := { g.defF with pending := g.startedEff.pending } }
 
 /-! ### The entry point: graph check, context, fold over the trace
